@@ -1073,24 +1073,18 @@ Qed.
 Lemma add_flavor_other who now g d t u r f :
   f <> g -> alookup f (vf_info (add_flavor who now g d t u r)) = alookup f (vf_info r).
 Proof.
-  intro N. unfold add_flavor.
-  repeat match goal with |- context [let '(_, _) := ?x in _] => destruct x end.
-  cbn [vf_info]. now apply alookup_aset_other.
+  intro N. unfold add_flavor. cbn [vf_info]. now apply alookup_aset_other.
 Qed.
 
 Lemma add_flavor_names who now g d t u r :
   vf_name (add_flavor who now g d t u r) = vf_name r /\
   vf_version (add_flavor who now g d t u r) = vf_version r.
 Proof.
-  unfold add_flavor.
-  repeat match goal with |- context [let '(_, _) := ?x in _] => destruct x end.
-  split; reflexivity.
+  unfold add_flavor. split; reflexivity.
 Qed.
 
 Lemma add_flavor_nonempty who now g d t u r : vf_info (add_flavor who now g d t u r) <> [].
 Proof.
-  unfold add_flavor.
-  repeat match goal with |- context [let '(_, _) := ?x in _] => destruct x end.
-  cbn [vf_info]. destruct (vf_info r) as [|[? ?] ?]; cbn; [discriminate|].
+  unfold add_flavor. cbn [vf_info]. destruct (vf_info r) as [|[? ?] ?]; cbn [aset]; [discriminate|].
   match goal with |- context [str_eqb ?a ?b] => destruct (str_eqb a b) end; discriminate.
 Qed.
